@@ -38,6 +38,7 @@ package suites
 
 import (
 	"bufio"
+	"crypto/tls"
 	"fmt"
 	"math/rand"
 	"net"
@@ -195,7 +196,9 @@ func capMin(a, b int) int {
 
 type capSession struct {
 	c     *girc.Client
-	peer  net.Conn
+	peer  net.Conn // what the scripted server reads and writes (the TLS layer for bit U)
+	raw   net.Conn // the pipe end underneath, closed at the end
+	tls   bool
 	mu    sync.Mutex
 	lines []string
 	done  chan error
@@ -228,6 +231,7 @@ type capCfg struct {
 	ssl             bool
 	disableFallback bool
 	noTracking      bool
+	tlsConn         bool // bit U: the connection is TLS (as after an STS upgrade), Config.SSL untouched
 	supported       map[string][]string
 }
 
@@ -247,6 +251,8 @@ func parseCapCfg(bits, sup string) capCfg {
 			cfg.disableFallback = true
 		case 'T':
 			cfg.noTracking = true
+		case 'U':
+			cfg.tlsConn = true
 		}
 	}
 	if sup != "" {
@@ -278,7 +284,7 @@ func (cc capCfg) girc() girc.Config {
 }
 
 func startCapSession(cc capCfg) *capSession {
-	s := &capSession{done: make(chan error, 1)}
+	s := &capSession{done: make(chan error, 1), tls: cc.tlsConn}
 	cfg := cc.girc()
 	cfg.RecoverFunc = func(*girc.Client, *girc.HandlerError) {}
 	s.c = girc.New(cfg)
@@ -299,9 +305,21 @@ func startCapSession(cc capCfg) *capSession {
 func (s *capSession) connect() {
 	mark := len(s.snapshot())
 	in, out := net.Pipe()
-	s.peer = in
+	s.raw = in
+	var srv, cli net.Conn = in, out
+	if s.tls {
+		// an in-process TLS server on the pipe; the client side is a *tls.Conn, which is what
+		// Client.TLSConnectionState() looks for (session tickets off: on an unbuffered pipe
+		// the post-handshake ticket write would meet the client's first write)
+		conf, err := stsServerTLS()
+		if err == nil {
+			srv = tls.Server(in, conf)
+			cli = tls.Client(out, &tls.Config{InsecureSkipVerify: true, ServerName: stsHost})
+		}
+	}
+	s.peer = srv
 	go func() {
-		r := bufio.NewReader(in)
+		r := bufio.NewReader(srv)
 		for {
 			l, err := r.ReadString('\n')
 			if l != "" {
@@ -314,7 +332,7 @@ func (s *capSession) connect() {
 			}
 		}
 	}()
-	go func() { s.done <- s.c.MockConnect(out) }()
+	go func() { s.done <- s.c.MockConnect(cli) }()
 	s.waitFor(func(l []string) bool {
 		for _, x := range l[mark:] {
 			if strings.HasPrefix(x, "USER ") {
@@ -337,7 +355,7 @@ func (s *capSession) reconnect() bool {
 	case <-time.After(20 * time.Second):
 		return false
 	}
-	s.peer.Close()
+	s.raw.Close()
 	dl := time.Now().Add(20 * time.Second)
 	for s.c.IsConnected() && time.Now().Before(dl) {
 		time.Sleep(200 * time.Microsecond)
@@ -372,6 +390,20 @@ func capCanonLine(l string) string {
 		return "AUTH:" + Hex(strings.TrimPrefix(strings.TrimPrefix(l, "AUTHENTICATE "), ":"))
 	}
 	return "?" + Hex(l)
+}
+
+// capHasAttr: does the advertisement token "name=a,b=c" carry the attribute key?
+func capHasAttr(tok, key string) bool {
+	eq := strings.IndexByte(tok, '=')
+	if eq <= 0 {
+		return false
+	}
+	for _, a := range strings.Split(tok[eq+1:], ",") {
+		if k, _, _ := strings.Cut(a, "="); k == key {
+			return true
+		}
+	}
+	return false
 }
 
 func capTokenName(tok string) string {
@@ -413,7 +445,7 @@ func runCapSession(c Case) Result {
 		case <-s.done:
 		case <-time.After(20 * time.Second):
 		}
-		s.peer.Close()
+		s.raw.Close()
 	}
 	defer cleanup()
 
@@ -471,6 +503,8 @@ func runCapSession(c Case) Result {
 	advertised := map[string]bool{}
 	offered := map[string]bool{}    // listed since the last ACK/NAK and not deleted since
 	offeredLit := map[string]bool{} // listed since the last ACK (what an unpruned tmpCap explains)
+	pendingSts := ""                // the pending (supported, on offer) advertisement of sts, e.g. "sts=duration=60"
+	enabledStsDuration := false     // sts is acknowledged and the value it was acknowledged with has a duration key
 	ledger := map[string]bool{}     // acknowledged and not since deleted / disabled (IRCv3 reading)
 	ledgerLit := map[string]bool{}  // the same with "-name" read as a capability name
 	lookup := func(l map[string]bool, name string) bool {
@@ -519,6 +553,7 @@ func runCapSession(c Case) Result {
 			offeredLit = map[string]bool{}
 			ledger = map[string]bool{}
 			ledgerLit = map[string]bool{}
+			pendingSts, enabledStsDuration = "", false
 			reg := s.snapshot()[mark:]
 			checkReg(reg)
 			tmp, en := s.c.VerifCapState()
@@ -545,10 +580,23 @@ func runCapSession(c Case) Result {
 					advertised[capTokenName(tok)] = true
 					offered[capTokenName(tok)] = true
 					offeredLit[capTokenName(tok)] = true
+					if capTokenName(tok) == "sts" && supported("sts") {
+						pendingSts = tok
+					}
 				}
 			case sub == "NAK" && len(params) >= 2:
 				offered = map[string]bool{}
+				pendingSts = ""
 			case sub == "ACK" && len(params) == 3:
+				for _, tok := range strings.Split(last, " ") {
+					switch tok {
+					case "sts":
+						enabledStsDuration = capHasAttr(pendingSts, "duration")
+					case "-sts":
+						enabledStsDuration = false
+					}
+				}
+				pendingSts = ""
 				offered = map[string]bool{}
 				offeredLit = map[string]bool{}
 				for _, tok := range strings.Split(last, " ") {
@@ -564,6 +612,9 @@ func runCapSession(c Case) Result {
 					delete(ledger, capTokenName(tok))
 					delete(ledgerLit, capTokenName(tok))
 					delete(offered, capTokenName(tok))
+					if capTokenName(tok) == "sts" {
+						pendingSts, enabledStsDuration = "", false
+					}
 				}
 			}
 		}
@@ -707,6 +758,20 @@ func runCapSession(c Case) Result {
 					if !supported(tok) {
 						fail("req-unsupported", "round %d requests %q which the configuration does not support", k, tok)
 					}
+				}
+			}
+		}
+		// ---- oracle: STS on a connection that IS secure (bit U: TLS although Config.SSL is
+		// false, the state an STS upgrade leaves). The policy is judged as for a secure
+		// connection: never another upgrade, and no "invalid policy" ERROR when the
+		// acknowledged value carries a duration (a port, if any, is ignored).
+		if cc.tlsConn && !cc.noTracking && !cc.disableSTS && sub == "ACK" && len(params) == 3 && ledger["sts"] {
+			for _, o := range outs {
+				if o == "U" {
+					fail("sts-tls-misjudged", "round %d: STS upgrade started on a connection that is already TLS; the round is not concluded", k)
+				}
+				if o == "E" && enabledStsDuration {
+					fail("sts-tls-misjudged", "round %d: sts with a duration acknowledged on a TLS connection, answered by the invalid-policy ERROR instead of CAP END / AUTHENTICATE", k)
 				}
 			}
 		}
@@ -854,6 +919,9 @@ func genCapSessionCfg(r *rand.Rand) (bits, sup string) {
 	if r.Intn(12) == 0 {
 		bits += "T"
 	}
+	if r.Intn(5) == 0 {
+		bits += "U"
+	}
 	switch r.Intn(6) {
 	case 0:
 		sup = "echo-message"
@@ -876,7 +944,7 @@ func genCapAdvert(r *rand.Rand, removal bool) string {
 		case 0:
 			switch name {
 			case "sts":
-				name += "=" + Pick(r, "port=6697", "port=6697,duration=100", "duration=5", "port=5", "port=", "port=abc", "preload")
+				name += "=" + Pick(r, "port=6697", "port=6697,duration=100", "duration=5", "duration=300,preload", "duration", "port=5", "port=", "port=abc", "preload")
 			case "sasl":
 				name += "=PLAIN,EXTERNAL"
 			default:
@@ -1120,6 +1188,13 @@ func init() {
 			{"T", "", "multi-prefix", ev("*", "LS", "multi-prefix"), ev("me", "ACK", "multi-prefix")},
 			{"", "", "a", ev("me", "ACK", "multi-prefix "), ev("me", "ACK", ""), ev("me", "DEL", "")},
 			{"", "", "multi-prefix", ev("*", "LS", "multi-prefix multi-prefix=x multi-prefix"), ev("me", "ACK", "multi-prefix multi-prefix")},
+			// a connection that is TLS although Config.SSL is false (after an STS upgrade)
+			{"U", "", "sts", ev("*", "LS", "sts=duration=300"), ev("me", "ACK", "sts")},
+			{"U", "", "sts multi-prefix", ev("*", "LS", "sts=port=6697,duration=300 multi-prefix"), ev("me", "ACK", "sts multi-prefix"), ev("me", "NEW", "batch"), ev("me", "ACK", "batch")},
+			{"U", "", "sts", ev("*", "LS", "sts=port=6697"), ev("me", "ACK", "sts")},
+			{"US", "", "sts sasl", ev("*", "LS", "sts=duration=1,preload sasl"), ev("me", "ACK", "sts sasl")},
+			{"UL", "", "sts", ev("*", "LS", "sts=duration=300"), ev("me", "ACK", "sts")},
+			{"UD", "", "sts", ev("*", "LS", "sts=duration=300"), ev("me", "ACK", "sts")},
 			// multi-line listings whose final line has nothing usable: the earlier lines count
 			{"", "", "away-notify multi-prefix", ev("*", "LS", "*", "away-notify multi-prefix foo/unknown"), ev("*", "LS", "bar/unknown example.org/vendor=1"), ev("me", "ACK", "away-notify multi-prefix")},
 			{"S", "", "sasl batch", ev("*", "LS", "*", "sasl=PLAIN"), ev("*", "LS", "*", "batch"), ev("*", "LS", ""), ev("me", "ACK", "batch sasl")},
@@ -1145,9 +1220,9 @@ func init() {
 var capEnumAlphabet = func() []string {
 	ev := func(p ...string) string { return strings.Join(p, "\n") }
 	return []string{
-		ev("*", "LS", "*", "multi-prefix sts=port=6697"), // continuation line
-		ev("*", "LS", "sasl message-tags"),               // final line
-		ev("*", "LS", "unknown-cap"),                     // nothing usable by itself
+		ev("*", "LS", "*", "multi-prefix sts=port=6697,duration=60"), // continuation line
+		ev("*", "LS", "sasl message-tags"),                           // final line
+		ev("*", "LS", "unknown-cap"),                                 // nothing usable by itself
 		ev("me", "ACK", "sasl message-tags"),
 		ev("me", "ACK", "multi-prefix sts"),
 		ev("me", "NAK", "sasl"),
@@ -1157,7 +1232,7 @@ var capEnumAlphabet = func() []string {
 	}
 }()
 
-var capEnumConfigs = []string{"", "S", "SD"}
+var capEnumConfigs = []string{"", "S", "SD", "U"}
 
 const capEnumProbes = "sasl SASL message-tags multi-prefix batch sts"
 
@@ -1166,7 +1241,7 @@ func init() {
 		Name: "cap.enum",
 		Prop: []string{"C08"},
 		Exhaustive: "every sequence of at most 3 steps over 9 server lines (LS continuation, LS final, LS with nothing usable, " +
-			"two ACKs, NAK, NEW, DEL, reconnect) under the configurations {default, SASL, SASL+DisableSTS}: 3 x 820 sessions",
+			"two ACKs, NAK, NEW, DEL, reconnect) under the configurations {default, SASL, SASL+DisableSTS, default on a TLS connection}: 4 x 820 sessions",
 		Fixed: func() []Case {
 			var out []Case
 			var rec func(prefix []string, depth int)
